@@ -2,6 +2,7 @@
 C11 — Agent callbacks: each party told exactly once of its orders, cancels, fills.
 -/
 import PamsLemmas.RunnerLemmas
+import PamsLemmas.SourceTie
 
 namespace Pams.C11
 open Pams.Runner
@@ -129,5 +130,21 @@ def demo : Request :=
   { owner := 4, market := 1, isCancel := false, ref := 9, accepted := true, fills := some demoFills }
 theorem nonvacuous : callbacks (processRequest 3 true demo).tr =
     [.cbSubmitted 4 9, .cbExecuted 4 0, .cbExecuted 4 0, .cbExecuted 4 1, .cbExecuted 2 1] := by decide +kernel
+
+/-- (T) **the treatment of a request in the current sources is the model's**: for both copies of
+the request loop of `_handle_orders` (normal and high-frequency branch), for orders and cancels,
+with execution on and off, the calls and agent look-ups of the source in evaluation order (symbolic
+walk by the translator: hook, market call, owner look-up and notification, hook; then round, ledger
+update for the whole round, and per fill buyer look-up and notification, seller look-up and
+notification, hook) are exactly the model's trace of `processRequest`.  Moving the ledger update
+into the per-fill loop, swapping a hook and the market call, dropping a look-up or letting the two
+copies drift apart makes this fail to compile. -/
+theorem source_request_paths :
+    ∀ x ∈ PamsGen.requestPaths, x.2.2.2 = Pams.Source.modelPath x.2.1 x.2.2.1 := by decide
+
+theorem source_request_paths_complete :
+    PamsGen.requestPaths.map (fun x => (x.1, x.2.1, x.2.2.1)) =
+      [("normal", false, true), ("normal", false, false), ("normal", true, true), ("normal", true, false),
+       ("hft", false, true), ("hft", false, false), ("hft", true, true), ("hft", true, false)] := by decide
 
 end Pams.C11
